@@ -51,9 +51,15 @@ func main() {
 	replay := flag.String("replay", "", "history file to execute")
 	emitHist := flag.Bool("emithist", false, "attach the history to every result")
 	deep := flag.Bool("deep", false, "deeper bounds (thorough tier): long histories")
+	enum := flag.Bool("enum", false, "systematic mode: the run index selects (layout, op, op) from the enumeration instead of seeding a generator")
+	enumSize := flag.Bool("enum-size", false, "print the size of the enumeration")
 	stopOnFail := flag.Bool("stop", false, "stop at the first failing history")
 	flag.Parse()
 
+	if *enumSize {
+		fmt.Println(enumCount())
+		return
+	}
 	if *replay != "" {
 		b, err := os.ReadFile(*replay)
 		if err != nil {
@@ -74,6 +80,10 @@ func main() {
 		seed := mix(*base, i) | 1
 		p := profileFor(*profile, i)
 		h := genHistory(seed, p, *deep)
+		if *enum {
+			h = enumHistory(i)
+			seed = i
+		}
 		emit(line{Ev: "start", I: i, Seed: seed, Profile: p})
 		r := runHistory(h)
 		l := line{Ev: "end", I: i, Seed: seed, Profile: p, Res: r}
